@@ -11,4 +11,5 @@ CONSTANTS
   RestartOn = FALSE
   MaxOps = 4
   Depth = 4
+  Pattern <- PatNone
 INVARIANT Emit
